@@ -150,6 +150,26 @@ fn main() {
                 }
             }
             s.samples = raw.iter().step_by((raw.len() / 3).max(1)).take(3).cloned().collect();
+            // beyond the model's bound: segments far longer than any internal buffer, split over
+            // many writes of different sizes - the mapping still applies once per segment
+            for (seg_len, chunk) in [(70_000usize, 8192usize), (200_000, 4096), (65_537, 65_536), (300_000, 100_000)] {
+                let store = Rc::new(RefCell::new(Vec::new()));
+                let mut w = line_mapped(Shared(store.clone()), |mut seg: Vec<u8>| { let mut o = b"<P>".to_vec(); o.append(&mut seg); o });
+                let mut input: Vec<u8> = (0..seg_len).map(|i| b'a' + (i % 23) as u8).collect();
+                input.push(b'\n');
+                input.extend_from_slice(b"tail without marker");
+                for c in input.chunks(chunk) { w.write_all(c).unwrap(); }
+                drop(w);
+                let mut want = b"<P>".to_vec();
+                want.extend_from_slice(&input[..=seg_len]);
+                want.extend_from_slice(b"<P>tail without marker");
+                s.evaluations += 1;
+                if *store.borrow() != want {
+                    let got = store.borrow();
+                    let prefixes = got.windows(3).filter(|x| *x == b"<P>").count();
+                    s.mismatches.push(Mismatch { signature: "line_mapped: a long segment is not mapped exactly once".into(), detail: format!("a {seg_len}-byte line written in {chunk}-byte chunks: {} bytes out, {prefixes} prefixes (expected {} bytes, 2 prefixes)", got.len(), want.len()), case: json!({"segment": seg_len, "chunk": chunk}) });
+                }
+            }
         }
         "child" => {
             let mut raw = read_tlc_tagged(&input, "ST");
